@@ -59,10 +59,10 @@ def required(tier):
     b.update({f'window:{w}': 50 for w in WINDOWS})
     b.update({f'family:{f}': 20 for f in FAMILIES})
     b.update({'taps:1': 30, 'taps:12': 30, 'branches:2': 20, 'branches:>=128': 20, 'branches:odd': 100, 'branches:prime-factor>=13': 100,
-              'oneshot:ragged-length': 30, 'oneshot:cache-on': 30, 'oneshot:single-window': 5,
+              'oneshot:ragged-length': 30, 'oneshot:cache-on': 30, 'oneshot:single-window': 5, 'oneshot:more-than-2^20-samples': 3,
               'compose:exhaustive': 60, 'compose:sampled': 10, 'compose:starts-with-one-window': 200,
               'script:objects>=2': 60, 'script:same-config': 20, 'script:mixed-config': 20,
-              'script:reset-mid-stream': 30, 'script:uncached-mid-stream': 60, 'script:read-only-helper-mid-stream': 60})
+              'script:reset-mid-stream': 30, 'script:uncached-mid-stream': 60, 'script:read-only-helper-mid-stream': 60, 'script:continued-on-a-copy': 40})
     if tier == 'thorough':
         b['branches:>=512'] = 50
     return {'buckets': b,
@@ -140,6 +140,13 @@ def gen_cases(seed, tier):
             mp = c['cfg']['M'] * c['cfg']['P']
             j = i // 3
             c['W'] = 1 if common.stratum(j, 87, 9) == 4 else int(rng.integers(2, 7))
+            if common.stratum(j, 94, 130 if tier == 'quick' else 1500) == 0:
+                # one call on more than 2^20 samples (a library that works through long inputs in pieces must not lose or repeat
+                # spectra at its internal seams)
+                c['cfg'] = dict(M=int(common.pick(rng, [2, 4, 3])), P=int(common.pick(rng, [16, 32, 12])), win=common.pick(rng, ['hamming', 'hann']))
+                c['W'] = (2 ** 20) // (c['cfg']['M'] * c['cfg']['P']) + int(rng.integers(1, 6))
+                c['dtype'] = 'float64'
+                mp = c['cfg']['M'] * c['cfg']['P']
             c['extra'] = int(rng.integers(1, mp)) if common.stratum(j, 88, 2) else 0
             c['cache'] = bool(common.stratum(j, 89, 2))
             c['ab'] = [float(np.round(rng.uniform(-3, 3), 3)), float(np.round(rng.uniform(-3, 3), 3))]
@@ -175,7 +182,7 @@ def gen_cases(seed, tier):
                     ops.append([o, 'peek', int(rng.integers(1, 4)), int(rng.integers(0, 2))])
                 elif r < 0.86:
                     # the object's read-only helpers used mid-stream: frequency response (plain / tiled), unit-noise estimate
-                    ops.append([o, 'helper', int(rng.integers(0, 3)), int(rng.integers(1, 4))])
+                    ops.append([o, 'helper', int(rng.integers(0, 5)), int(rng.integers(1, 4))])
                 else:
                     ops.append([o, 'reset'])
             for o in range(nobj):                     # every object ends with a seam after whatever came before
@@ -382,6 +389,8 @@ def run_oneshot(c, ctx):
         R.bucket('oneshot:ragged-length')
     if W == 1:
         R.bucket('oneshot:single-window')
+    if W * M * P > 2 ** 20:
+        R.bucket('oneshot:more-than-2^20-samples')
     use_cache = bool(c['cache']) and not c['extra']
     if use_cache:
         R.bucket('oneshot:cache-on')
@@ -659,8 +668,15 @@ def run_script(c, ctx):
                     ctx.call(fb.get_response, fftlength=2 * op[3] * M)
                 elif op[2] == 1:
                     ctx.call(fb.tile_response, 2, fftlength=2 * op[3] * M)
-                else:
+                elif op[2] == 2:
                     ctx.call(fb.estimate_channelized_stds, factor=3 * M + op[3], seed=7)
+                else:
+                    # a check-point: the stream is carried on with a copy (deepcopy / pickle round trip) of the filterbank object
+                    import copy as _copy
+                    import pickle as _pickle
+                    R.bucket('script:continued-on-a-copy')
+                    fb = _copy.deepcopy(fb) if op[2] == 3 else _pickle.loads(_pickle.dumps(fb))
+                    fbs[o_idx] = fb
             R.check(np.array_equal(np.asarray(fb.window, dtype=np.float64), h), 'read-only-helper-changed-the-window', helper=op[2], M=M, P=P)
             same_cache = (fb.cache is None) if cache_before is None else \
                 (fb.cache is not None and np.array_equal(np.asarray(fb.cache), cache_before))
